@@ -88,6 +88,7 @@ def generate(rng):
         scn['short_writes'] = [rng.choice([0, 1, 3, 100]) for _ in range(rng.randint(1, 4))]
     scn['in_cap'] = rng.choice([4096, 4096, 64])
     scn['hup_write'] = rng.choice(['ok', 'ok', 'ok', 'eio'])
+    scn['after_interact'] = rng.random() < 0.5
     gen_eintr(rng, scn)
     return scn
 
@@ -376,6 +377,28 @@ def run(scn, prop=None):
                         fullt = full if enc is None else codecs.getincrementaldecoder(enc)('replace').decode(full, False)
                         if not (kdead and fullt.startswith(text) and len(text) >= len(wantt)):
                             V('C11.interact_send', 'logfile_send during interact() differs from what was forwarded to the child', log=name)
+        # ---- after the session: the object goes back to ordinary use; what interact() left behind (decoder state of its
+        # log helper, terminal mode) must not leak into the next operation's transcript
+        if res == 'ret' and not kdead and logs and scn.get('after_interact') and not out:
+            marks = dict((name, len(lg.writes())) for name, lg in logs.items())
+            try:
+                child.sendcontrol('g')
+                st = child.string_type
+                wantc = b'\x07' if enc is None else u'\x07'
+                for name, lg in logs.items():
+                    new = lg.writes()[marks[name]:]
+                    if name in ('logfile_send', 'logfile') and new != [wantc]:
+                        V('C11.interact_after', 'sendcontrol after interact(): %s received %r instead of exactly %r' % (name, new, wantc), log=name)
+                    if name == 'logfile_read' and new:
+                        V('C11.interact_after', 'sendcontrol after interact(): logfile_read received %r' % (new,), log=name)
+                r.w.probe('send_after_interact')
+            except HarnessError:
+                raise
+            except SimHang:
+                pass
+            except Exception as e:
+                if r.proc.alive():
+                    V('C11.interact_after', 'sendcontrol after interact() raised %s: %s' % (type(e).__name__, e))
         info = collect_info(r)
         info['counters'] = {'typed': len(typed), 'child_wrote': len(child_wrote), 'esc:%s' % scn.get('esc_how'): 1,
                             'ended:%s' % ('dead' if kdead else 'escape'): 1}
